@@ -1,7 +1,7 @@
 (* CliRaw.v — daacfind on ARBITRARY bytes: BufRead::lines() hands out Err(InvalidData) for a line
    that is not UTF-8.  main.rs then (a) for the -f pattern file and for standard input propagates the
    error with `?` (main returns Err: status 1; what was printed before stays printed), (b) for a FILE
-   argument reports on stderr and `break`s: the rest of that file is skipped, the next file is read.
+   argument reports on stderr and `break`s: the rest of that file is skipped, the next file is read; (c) a FILE name that is not UTF-8 is not printed.
    [cli_main] (Model/Cli.v) is the program on inputs all of whose lines are UTF-8. *)
 From DV Require Import Model.Base Model.Nfa Model.BwBuild Model.BwSearch Model.Api Model.Utf8 Model.Cli.
 
@@ -13,11 +13,15 @@ Fixpoint valid_prefix (ls : list (list N)) : list (list N) * bool :=
   end.
 Definition lines_raw (bs : list N) : list (list N) * bool := valid_prefix (buf_lines bs).
 
+(* filename.to_str(): a FILE argument that is not UTF-8 is opened all the same, but its name is not
+   printed (no prefix, as with -h) *)
+Definition shown_name (name : list N) : option (list N) := if valid_utf8 name then Some name else None.
+
 Fixpoint run_files_raw (A : bw_automaton unit) (fl : cli_flags) (files : list (list N * list N)) : res (list N) :=
   match files with
   | [] => Ok []
   | (name, content) :: r =>
-    a <- run_lines A fl (Some name) 0 (fst (lines_raw content)) ;;
+    a <- run_lines A fl (shown_name name) 0 (fst (lines_raw content)) ;;
     b <- run_files_raw A fl r ;;
     Ok (a ++ b)
   end.
